@@ -42,7 +42,7 @@ static const char *CTN[CT_COUNT] = {
     "fault_delivery_short", "fault_delivery_zero", "delivery_full",
     "fault_os_eintr", "fault_os_eagain", "fault_os_permanent", "os_success", "fault_os_open_fail", "fault_os_short_read",
     "fault_os_stale_errno_on_success", "fault_os_scribble_on_failure", "fault_dirty_object_memory", "fault_abandon_midway",
-    "fault_free_injected", "fault_alloc_fail_runs", "fault_stack_paint",
+    "fault_free_injected", "fault_alloc_fail_runs", "fault_stack_paint", "fault_os_echo_delivery", "fault_sleep_interrupted", "simulated_sleeps", "simulated_clock_reads", "fault_fork_identity_change", "fault_boundary_address_placement",
     "probe_hash_topup_and_continue", "probe_hash_topup_exact", "probe_hash_topup_short", "probe_hash_empty_update", "probe_hash_null_update",
     "probe_hash_finalize_checked", "probe_hash_reinit_mid_message", "probe_hash_init_after_free", "probe_hash_init_after_finalize",
     "probe_hmac_key_empty", "probe_hmac_key_lt64", "probe_hmac_key_eq64", "probe_hmac_key_gt64", "probe_hmac_finalize_checked", "probe_hmac_oneshot_checked",
@@ -54,7 +54,7 @@ static const char *CTN[CT_COUNT] = {
     "probe_prng_init_failed_delivery", "probe_prng_reseed_failed_delivery", "probe_prng_null_callback_init", "probe_prng_system_source_init", "probe_prng_twin_flip_checked", "probe_prng_twin_equiv_checked",
     "probe_trng_calls", "probe_trng_success_after_retries", "probe_trng_permanent_error", "probe_trng_fd_opened",
     "probe_free_checked", "probe_free_never_initialised", "probe_free_mid_message", "probe_free_after_finalize", "probe_free_twice", "probe_clean_checked",
-    "probe_mix_serial_compared_ops", "probe_mix_reorder_compared_ops", "probe_heap_calls_from_library", "asan_read_reports_unclaimed_observation"};
+    "probe_mix_serial_compared_ops", "probe_mix_reorder_compared_ops", "probe_heap_calls_from_library", "asan_read_reports_unclaimed_observation", "probe_stack_residue_scans"};
 const char *ctr_name(int c) { return (c >= 0 && c < CT_COUNT) ? CTN[c] : "?"; }
 
 // ---------------------------------------------------------------- bytes
@@ -130,6 +130,9 @@ Json plan_to_json(const Plan &p) {
     k.set("os_scribble", p.os_scribble);
     k.set("alloc_fail", p.alloc_fail);
     k.set("fd_base", p.fd_base);
+    k.set("os_echo", p.os_echo);
+    k.set("sleep_interrupt", p.sleep_interrupt);
+    k.set("clock_step_ns", (unsigned long long)p.clock_step_ns);
     j.set("knobs", k);
     Json ts = Json::arr();
     for (auto &t : p.tasks) {
@@ -158,6 +161,9 @@ bool plan_from_json(const Json &j, Plan &p) {
     p.os_scribble = k.at("os_scribble").as_b();
     p.alloc_fail = k.at("alloc_fail").as_b();
     p.fd_base = k.has("fd_base") ? (int)k.at("fd_base").as_i() : 3;
+    p.os_echo = k.at("os_echo").as_b();
+    p.sleep_interrupt = k.at("sleep_interrupt").as_b();
+    p.clock_step_ns = k.at("clock_step_ns").as_u();
     for (auto &t : j.at("tasks").a) {
         TaskPlan tp;
         for (auto &o : t.a) tp.ops.push_back(op_from_json(o));
@@ -169,7 +175,7 @@ bool plan_from_json(const Json &j, Plan &p) {
 uint64_t plan_shape_hash(const Plan &p) {
     uint64_t h = hash_bytes((const uint8_t *)p.engine.data(), p.engine.size());
     h = mix2(h, p.switch_permille); h = mix2(h, p.site_mask); h = mix2(h, p.tasks.size());
-    h = mix2(h, (p.os_stale_errno ? 1 : 0) | (p.os_scribble ? 2 : 0) | (p.alloc_fail ? 4 : 0));
+    h = mix2(h, (p.os_stale_errno ? 1 : 0) | (p.os_scribble ? 2 : 0) | (p.alloc_fail ? 4 : 0) | (p.os_echo ? 8 : 0) | (p.sleep_interrupt ? 16 : 0) | (p.clock_step_ns << 8));
     for (auto &t : p.tasks) {
         h = mix2(h, 0xABCD);
         for (auto &o : t.ops) {
@@ -398,7 +404,9 @@ static void task_main(int idx) {
             if (w.stop) break;
             i = t.next_op;
         }
-        paint_stack(w, t, mix2(w.plan->paint_seed ^ w.world_id, ((uint64_t)idx << 20) | (uint64_t)i));
+        // half of the ops run over painted stack, the other half over whatever the previous call left there
+        if (mix2(w.plan->paint_seed, ((uint64_t)idx << 20) | (uint64_t)i) & 1)
+            paint_stack(w, t, mix2(w.plan->paint_seed ^ w.world_id, ((uint64_t)idx << 20) | (uint64_t)i));
         exec_op(w, ts, ops[i], i);
         t.next_op = i + 1;
         if (w.serial) switch_to_main(w);
